@@ -181,12 +181,80 @@ func UpdateSnapshotCount(count)
 
 /*@
 module tick
-props C06
+props C06 C09
 use common core
+use netmap be4
 dialect neovm
 
-// C06: the tick calls newEpoch(epoch) exactly once on every subscriber, in key (= subscription) order,
-// and changes nothing else while doing so.
+// C06: the epoch tick (C09: it delivers the new epoch number to every subscriber, Balance among them).
+pure N(s Store) Int  = b2i(s.get("snapshotCount"))
+pure id(s Store) Int = b2i(s.get("snapshotCurrent"))
+pure C(s Store) Int  = b2i(s.get("snapshotEpoch"))
+pure slotkey(j Int) Bytes = "snapshot_" ++ byte(j)
+pure pkey(e Int) Bytes = "p" ++ fbe(e)
+pure cand(s Store, j Int) Node = deser_Node(s.get(skey(s, "candidate", j)))
+
+// the legacy network map: the non-offline candidates in key order. filtLen(s, n) / filtAt(s, n, i) describe the list
+// obtained by filtering the first n candidates (definition by recursion on n)
+ufun filtLen(s Store, n Int) Int
+ufun filtAt(s Store, n Int, i Int) Node
+axiom filtLen0: forall s Store {filtLen(s, 0)} :: filtLen(s, 0) == 0
+axiom filtLenS: forall s Store, n Int {filtLen(s, n + 1)} :: n >= 0 ==> filtLen(s, n + 1) == filtLen(s, n) + (cand(s, n).State != 2 ? 1 : 0)
+axiom filtAtS:  forall s Store, n Int, i Int {filtAt(s, n + 1, i)} :: n >= 0 && 0 <= i && i < filtLen(s, n + 1)
+                  ==> filtAt(s, n + 1, i) == (i < filtLen(s, n) ? filtAt(s, n, i) : cand(s, n))
+
+// counters are initialised by deployment and kept well-formed (ring invariant, see module ring)
+pred WF(s Store) = s.has("snapshotCount") && s.has("snapshotCurrent") && s.has("snapshotEpoch")
+                && 1 <= N(s) && N(s) <= 255 && 0 <= id(s) && id(s) < N(s) && 0 <= C(s)
+
+func getSnapshotCount(ctx) (r)
+  pure
+  ensures r == N(store)
+
+func getNetmapNodes(ctx) (r)
+  pure
+  ensures len(r) == cnt(store, "candidate") && !isnil(r)
+  ensures forall j Int {r[j]} :: 0 <= j && j < len(r) ==> r[j] == cand(store, j)
+  loop 0
+    invariant len(result) == $it.pos && !isnil(result)
+    invariant forall j Int {result[j]} :: 0 <= j && j < $it.pos ==> result[j] == cand(store, j)
+
+func filterNetmap(ctx) (r)
+  pure
+  ensures [C06] len(r) == filtLen(store, cnt(store, "candidate")) && !isnil(r)
+  ensures [C06] forall t Int {r[t]} :: 0 <= t && t < len(r) ==> r[t] == filtAt(store, cnt(store, "candidate"), t)
+  loop 0
+    invariant len(result) == filtLen(store, $i) && !isnil(result) && $i <= len(netmap)
+    invariant forall t Int {result[t]} :: 0 <= t && t < len(result) ==> result[t] == filtAt(store, $i, t)
+
+// copies every structured candidate 2<k> to p<be4(epoch)><k>; nothing else changes
+func fillNetmap(ctx, epoch)
+  requires 0 <= epoch && epoch < 4294967296
+  ensures [C06] forall k Bytes {store.opt(pkey(epoch) ++ k)} :: old(store).has("2" ++ k) ==> store.opt(pkey(epoch) ++ k) == old(store).opt("2" ++ k)
+  ensures [C06] forall x Bytes {store.opt(x)} :: !prefix(pkey(epoch), x) ==> store.opt(x) == old(store).opt(x)
+  // nothing else appears under the epoch's prefix
+  ensures [C06] forall x Bytes {store.opt(x)} :: prefix(pkey(epoch), x) && store.opt(x) != old(store).opt(x) ==> old(store).has("2" ++ x[5:]) && store.opt(x) == old(store).opt("2" ++ x[5:])
+  ensures notifs == old(notifs)
+  loop 0
+    invariant forall j Int {$it.key(j)} :: 0 <= j && j < $it.pos ==> store.opt(pkey(epoch) ++ $it.key(j)[1:]) == old(store).opt($it.key(j))
+    invariant forall x Bytes {store.opt(x)} :: !prefix(pkey(epoch), x) ==> store.opt(x) == old(store).opt(x)
+    invariant forall x Bytes {store.opt(x)} :: prefix(pkey(epoch), x) && store.opt(x) != old(store).opt(x) ==> old(store).has("2" ++ x[5:]) && store.opt(x) == old(store).opt("2" ++ x[5:])
+    invariant notifs == old(notifs)
+
+// removes every key under p<be4(epoch)>; nothing else changes
+func dropNetmap(ctx, epoch)
+  requires 0 - 32768 <= epoch && epoch < 4294967296
+  ensures [C06] forall x Bytes {store.opt(x)} :: prefix(pkey(epoch), x) ==> !store.has(x)
+  ensures [C06] forall x Bytes {store.opt(x)} :: !prefix(pkey(epoch), x) ==> store.opt(x) == old(store).opt(x)
+  ensures notifs == old(notifs)
+  loop 0
+    invariant forall j Int {$it.key(j)} :: 0 <= j && j < $it.pos ==> !store.has($it.key(j))
+    invariant forall x Bytes {store.opt(x)} :: !prefix(pkey(epoch), x) ==> store.opt(x) == old(store).opt(x)
+    invariant forall x Bytes {store.opt(x)} :: store.has(x) ==> store.opt(x) == old(store).opt(x)
+    invariant notifs == old(notifs)
+
+// the tick calls newEpoch(epoch) exactly once on every subscriber, in key (= subscription) order,
+// and changes nothing else while doing so
 func cleanup(ctx, epoch)
   ensures [C06] store == old(store) && notifs == old(notifs)
   ensures [C06] xcalls("newEpoch").len == old(xcalls("newEpoch")).len + cnt(old(store), "e")
@@ -197,6 +265,49 @@ func cleanup(ctx, epoch)
     invariant xcalls("newEpoch").len == old(xcalls("newEpoch")).len + $it.pos
     invariant forall j Int {$it.key(j)} :: 0 <= j && j < $it.pos ==>
          xcalls("newEpoch")[old(xcalls("newEpoch")).len + j] == ev_call_newEpoch($it.key(j)[2:], "newEpoch", epoch)
+
+func NewEpoch(epochNum)
+  requires WF(store) && epochNum < 4294967296
+  // succeeds only if Alphabet-witnessed and the epoch grows
+  ensures [C06] W(alphabet()) && epochNum > old(C(store))
+  ensures [C06] C(store) == epochNum && store.get("snapshotBlock") == i2b(height)
+  ensures [C06] N(store) == old(N(store)) && id(store) == (old(id(store)) + 1) % old(N(store))
+  // the candidate set itself is unchanged
+  ensures [C06] forall k Bytes {store.opt(k)} :: prefix("candidate", k) || prefix("2", k) ==> store.opt(k) == old(store).opt(k)
+  // legacy format: the next ring slot holds all non-offline candidates in key order
+  ensures [C06] store.has(slotkey(id(store)))
+        && len(deser_L_Node(store.get(slotkey(id(store))))) == filtLen(old(store), cnt(old(store), "candidate"))
+  ensures [C06] forall t Int {deser_L_Node(store.get(slotkey(id(store))))[t]} :: 0 <= t && t < filtLen(old(store), cnt(old(store), "candidate"))
+        ==> deser_L_Node(store.get(slotkey(id(store))))[t] == filtAt(old(store), cnt(old(store), "candidate"), t)
+  // structured format: every structured candidate is published under the epoch's prefix
+  ensures [C06] forall k Bytes {store.opt(pkey(epochNum) ++ k)} :: old(store).has("2" ++ k) ==> store.opt(pkey(epochNum) ++ k) == old(store).opt("2" ++ k)
+  // one call per subscriber in subscription order with the new epoch number, exactly one NewEpoch notification
+  ensures [C06,C09] xcalls("newEpoch").len == old(xcalls("newEpoch")).len + cnt(old(store), "e")
+  ensures [C06,C09] forall j Int {xcalls("newEpoch")[old(xcalls("newEpoch")).len + j]} :: 0 <= j && j < cnt(old(store), "e") ==>
+         xcalls("newEpoch")[old(xcalls("newEpoch")).len + j] == ev_call_newEpoch(skey(old(store), "e", j)[2:], "newEpoch", epochNum)
+  ensures [C06] notifs == old(notifs) ++ [NewEpoch(epochNum)]
+  // nothing else is written: counters, the ring slot, the epoch's list and the dropped list
+  ensures [C06] forall x Bytes {store.opt(x)} :: x != "snapshotEpoch" && x != "snapshotBlock" && x != "snapshotCurrent" && x != slotkey(id(store))
+        && !prefix(pkey(epochNum), x) && !(epochNum > old(N(store)) && prefix(pkey(epochNum - old(N(store))), x)) ==> store.opt(x) == old(store).opt(x)
+
+func Epoch() (r)
+  pure
+  ensures [C06] r == C(store)
+
+func LastEpochBlock() (r)
+  pure
+  ensures [C06] r == b2i(store.get("snapshotBlock"))
+
+// subscribing twice has no additional effect; a new subscriber gets the next index
+func SubscribeForNewEpoch(contract)
+  ensures [C06] W(alphabet())
+  ensures [C06] (exists j Int :: 0 <= j && j < cnt(old(store), "e") && skey(old(store), "e", j)[2:] == contract) ==> store == old(store) && notifs == old(notifs)
+  ensures [C06] !(exists j Int :: 0 <= j && j < cnt(old(store), "e") && skey(old(store), "e", j)[2:] == contract) ==>
+        store.has("e" ++ byte(cnt(old(store), "e")) ++ contract) && notifs == old(notifs) ++ [NewEpochSubscription(contract)]
+        && (forall x Bytes {store.opt(x)} :: x != "e" ++ byte(cnt(old(store), "e")) ++ contract ==> store.opt(x) == old(store).opt(x))
+  loop 0
+    invariant num == $it.pos && store == old(store) && notifs == old(notifs)
+    invariant forall j Int {$it.key(j)} :: 0 <= j && j < $it.pos ==> $it.key(j)[2:] != contract
 @*/
 
 /*@
@@ -206,21 +317,22 @@ dialect neovm
 
 // fourBytesBE: the four-byte big-endian key fragment of an epoch. i2b is the VM's minimal little-endian
 // two's-complement integer encoding (definitional axiom, A4; checked against the real VM by the conformance run).
-pure enc(x Int) Bytes = x == 0 ? "" :
-      (x < 128 ? byte(x) :
-      (x < 32768 ? byte(x % 256) ++ byte(x / 256) :
-      (x < 8388608 ? byte(x % 256) ++ byte((x / 256) % 256) ++ byte(x / 65536) :
-      (x < 2147483648 ? byte(x % 256) ++ byte((x / 256) % 256) ++ byte((x / 65536) % 256) ++ byte(x / 16777216) :
-        byte(x % 256) ++ byte((x / 256) % 256) ++ byte((x / 65536) % 256) ++ byte((x / 16777216) % 256) ++ byte(x / 4294967296)))))
-pure encneg(x Int) Bytes = x >= 0 - 128 ? byte(256 + x) : byte((65536 + x) % 256) ++ byte((65536 + x) / 256)
-axiom i2bdef:    forall x Int {i2b(x)} :: 0 <= x && x < 4294967296 ==> i2b(x) == enc(x)
-axiom i2bdefneg: forall x Int {i2b(x)} :: 0 - 32768 <= x && x < 0 ==> i2b(x) == encneg(x)
+// one definitional axiom per length class of the encoding (keeps every instance small)
+axiom i2b0: i2b(0) == ""
+axiom i2b1: forall x Int {i2b(x)} :: 0 < x && x < 128 ==> i2b(x) == byte(x)
+axiom i2b2: forall x Int {i2b(x)} :: 128 <= x && x < 32768 ==> i2b(x) == byte(x % 256) ++ byte(x / 256)
+axiom i2b3: forall x Int {i2b(x)} :: 32768 <= x && x < 8388608 ==> i2b(x) == byte(x % 256) ++ byte((x / 256) % 256) ++ byte(x / 65536)
+axiom i2b4: forall x Int {i2b(x)} :: 8388608 <= x && x < 2147483648 ==> i2b(x) == byte(x % 256) ++ byte((x / 256) % 256) ++ byte((x / 65536) % 256) ++ byte(x / 16777216)
+axiom i2b5: forall x Int {i2b(x)} :: 2147483648 <= x && x < 4294967296 ==> i2b(x) == byte(x % 256) ++ byte((x / 256) % 256) ++ byte((x / 65536) % 256) ++ byte((x / 16777216) % 256) ++ byte(x / 4294967296)
+axiom i2bn1: forall x Int {i2b(x)} :: 0 - 128 <= x && x < 0 ==> i2b(x) == byte(256 + x)
+axiom i2bn2: forall x Int {i2b(x)} :: 0 - 32768 <= x && x < 0 - 128 ==> i2b(x) == byte((65536 + x) % 256) ++ byte((65536 + x) / 256)
 
 pure be4(e Int) Bytes = byte(e / 16777216) ++ byte((e / 65536) % 256) ++ byte((e / 256) % 256) ++ byte(e % 256)
-pure fbe(e Int) Bytes = e >= 0 ? be4(e) : (e >= 0 - 128 ? be4(256 + e) : be4(65536 + e))
+opaque pure fbe(e Int) Bytes = e >= 0 ? be4(e) : (e >= 0 - 128 ? be4(256 + e) : be4(65536 + e))
 
 func fourBytesBE(num) (r)
   pure
+  reveal fbe
   ensures [C06,C08] len(r) == 4 && !isnil(r)
   // one clause per length class of the integer encoding (keeps each query small)
   ensures [C06,C08] num == 0 ==> r == fbe(num)
@@ -238,7 +350,9 @@ lemma be4Bytes [C06,C08]: forall a Int, b Int :: 0 <= a && a < 4294967296 && 0 <
 lemma bytesInjective [C06,C08]: forall a Int, b Int :: 0 <= a && a < 4294967296 && 0 <= b && b < 4294967296 &&
       a / 16777216 == b / 16777216 && (a / 65536) % 256 == (b / 65536) % 256 && (a / 256) % 256 == (b / 256) % 256 && a % 256 == b % 256 ==> a == b
 // the fragment computed for a (small) negative number is that of a non-negative epoch at least 128
-lemma fbeNegative [C08]: forall e Int :: 0 - 254 <= e && e < 0 ==> fbe(e) == be4(e >= 0 - 128 ? 256 + e : 65536 + e) && (e >= 0 - 128 ? 256 + e : 65536 + e) >= 128
+lemma fbeNonNegative [C06,C08] reveal fbe: forall e Int {fbe(e)} :: 0 <= e ==> fbe(e) == be4(e)
+lemma fbeLen [C06,C08] reveal fbe: forall e Int {fbe(e)} :: 0 - 32768 <= e && e < 4294967296 ==> len(fbe(e)) == 4
+lemma fbeNegative [C08] reveal fbe: forall e Int :: 0 - 254 <= e && e < 0 ==> fbe(e) == be4(e >= 0 - 128 ? 256 + e : 65536 + e) && (e >= 0 - 128 ? 256 + e : 65536 + e) >= 128
 @*/
 
 /*@
